@@ -190,6 +190,7 @@ def rule_b(ctx):
                           or "<render::text_renderer::TaggedLine<" in ty)
     n = 0
     used = set()
+    counts = {}
     for (b, bb, t, states) in inv:
         n += 1
         pl = t["place"]
@@ -212,6 +213,7 @@ def rule_b(ctx):
                 continue
         row = table.get((fn_key(b), ex))
         if row:
+            counts[(fn_key(b), ex)] = counts.get((fn_key(b), ex), 0) + 1
             used.add((fn_key(b), ex))
             ctx.ok("C14-B", key, s, b.id, row, how="table")
             continue
@@ -219,6 +221,7 @@ def rule_b(ctx):
                       "an owned %s can be destroyed here on a feasible normal path; a fragment marker inside it "
                       "would be lost" % ty.split("<")[0].split("::")[-1])
     ctx.floor("C14-B", "feasible drop sites of line elements", n, 10)
+    drops.check_counts(ctx, "C14-B", table, counts)
     for k in table:
         if k not in used:
             ctx.info("C14-B", "stale-table-row:%s:%s" % k, "", k[0], "table row no longer matches a site")
